@@ -1,7 +1,21 @@
+/-
+  Driver for the answer streams c01.answers / c03.answers / c04.answers (one payload format, one runner):
+
+      <maxAnswers> | <Query wire> | <Clause wire> | ...          (payload)
+      a <wire> ; a <wire> ; ... ; end exhausted|more|err F|ball B  (implementation line)
+
+  Model column: the VM model (`Model/VM.lean`: compile, exec, Arrive, Call, the control built-ins, on
+  the trampoline of `Model/Promise.lean`, loaded with the REGENERATED bootstrap clauses) runs the
+  same program; a case that uses a built-in the VM model does not cover, or that exhausts its fuel,
+  prints NOMODEL (not compared).
+  Verdict: the reference interpreter `SLD.solveQuery` (cut transparency of the engine: iso = false)
+  must produce the same line.
+-/
 import PrologVerif.Driver.Common
 import PrologVerif.Model.VM
+import PrologVerif.Spec.SLD
 namespace PrologVerif.Driver.C01
-open PrologVerif PrologVerif.Driver PrologVerif.VM
+open PrologVerif PrologVerif.Driver
 
 mutual
   def shiftVars (k : Nat) : Term → Term
@@ -13,36 +27,69 @@ mutual
     | .cons t ts => .cons (shiftVars k t) (shiftArgs k ts)
 end
 
-def fuel : Nat := 60000
+/-- bounds the depth of the reference search, not its size; the generators only emit cases whose
+    reference search is far smaller -/
+def fuel : Nat := 20000
 
-/-- payload: `<max> | <Query> | <Clause> | …` -/
-def parse (payload : String) : Option (Nat × Term × List Term) :=
+/-- fuel of the VM model (bounds the number of trampoline steps and the nesting of exec) -/
+def vmFuel : Nat := 60000
+
+structure Case where
+  max : Nat
+  query : Term
+  prog : List Term
+
+def parseCase (payload : String) : Option Case :=
   match fields payload with
-  | maxS :: qS :: cs =>
-    match maxS.toNat?, Term.ofWire qS, cs.mapM Term.ofWire with
-    | some mx, some q, some prog => some (mx, shiftVars 10 q, prog)
+  | m :: q :: cs =>
+    match m.toNat?, Term.ofWire q, (cs.filter (· ≠ "")).mapM Term.ofWire with
+    | some max, some query, some prog => some ⟨max, query, prog⟩
     | _, _, _ => none
   | _ => none
 
-def showEnd : End → String
+def showEnd : SLD.End → String
   | .exhausted => "end exhausted"
   | .more => "end more"
   | .err f => "end err " ++ f.canon.wire
-  | .ball t => "end ball " ++ t.canon.wire
-  | .cancelled => "end cancelled"
-  | .goErr msg => "end goerr " ++ encName msg
+  | .ball b => "end ball " ++ b.canon.wire
 
-def showRun (answers : List Term) (e : End) : String :=
-  " ; ".intercalate (answers.map (fun a => "a " ++ a.canon.wire) ++ [showEnd e])
+/-- the line the runner prints for this outcome -/
+def showOutcome (r : List Term × SLD.End) : String :=
+  " ; ".intercalate (r.1.map (fun a => "a " ++ a.canon.wire) ++ [showEnd r.2])
 
-def modelLine (payload : String) : String :=
-  match parse payload with
-  | none => "BAD-CASE"
-  | some (mx, q, prog) =>
-    match runQuery fuel prog q mx with
-    | none => "out-of-fuel"
-    | some (answers, e) => showRun answers e
+def specLine (c : Case) (iso : Bool) : Option String :=
+  (SLD.solveQuery fuel c.prog c.query c.max iso).map showOutcome
 
-def handler : Handler := fun payload _ => (modelLine payload, "-")
+def noOracle (impl : String) : Bool :=
+  impl.endsWith "end timeout" || impl.endsWith "end cyclic" || impl.startsWith "assert-" || impl.startsWith "BAD-CASE"
+
+def judge (c : Case) (iso : Bool) (impl : String) : String :=
+  if noOracle impl then "-" else
+  match specLine c iso with
+  | none => "-"         -- out of fuel, or a unification subject to occurs check: undefined
+  | some want => if impl = want then "ok" else "FAIL spec says " ++ want
+
+/-! ### the VM model's line -/
+
+def showVMEnd : VM.End → Option String
+  | .exhausted => some "end exhausted"
+  | .more => some "end more"
+  | .err f => some ("end err " ++ f.canon.wire)
+  | .ball t => some ("end ball " ++ t.canon.wire)
+  | .cancelled => none
+  | .goErr _ => none
+
+def vmLine (c : Case) : String :=
+  match VM.runQuery vmFuel c.prog (shiftVars 10 c.query) c.max with
+  | none => "NOMODEL out-of-fuel"
+  | some (answers, e) =>
+    match showVMEnd e with
+    | none => "NOMODEL end"
+    | some es => " ; ".intercalate (answers.map (fun a => "a " ++ a.canon.wire) ++ [es])
+
+def handler (iso : Bool := false) : Handler := fun payload impl =>
+  match parseCase payload with
+  | none => ("BAD-CASE", "-")
+  | some c => (if noOracle impl then "NOMODEL " ++ impl else vmLine c, judge c iso impl)
 
 end PrologVerif.Driver.C01
